@@ -323,7 +323,17 @@ func c18Summarise(res c18Result, modelOK bool) gSummary {
 				allHeld = false
 			}
 		}
-		if total <= 40000 && allHeld && len(p.Ops) <= 8 {
+		mt := p.MaxTx
+		if mt == 0 {
+			mt = 32768
+		}
+		fitsPage := true // the allocator model covers READs whose DATA packet fits a page; longer ones get a plain buffer
+		for _, o := range p.Ops {
+			if o.K == "read" && min(o.Len, mt)+13 > c18PageSize {
+				fitsPage = false
+			}
+		}
+		if total <= 40000 && allHeld && fitsPage && len(p.Ops) <= 8 {
 			abs := st.Case.abs("/R")
 			var frames [][]byte
 			for _, o := range p.Ops {
@@ -332,10 +342,6 @@ func c18Summarise(res c18Result, modelOK bool) gSummary {
 			var ws []string
 			for _, f := range on.Frames {
 				ws = append(ws, c18ModelBytes(f))
-			}
-			mt := p.MaxTx
-			if mt == 0 {
-				mt = 32768
 			}
 			for _, run := range []*gRun{off, on} {
 				cfg := fmt.Sprintf("1111%d:%d:%d", map[bool]int{false: 0, true: 1}[run.Case.Prog.Alloc], c18PageSize, mt)
@@ -378,7 +384,7 @@ func checkC18(c *lib.Ctx) {
 			top, err := os.MkdirTemp("", "vh-c18-")
 			if err == nil {
 				defer os.RemoveAll(top)
-				c18F10(c, top, modelOK)
+				c18F10(c, top)
 			}
 			return
 		}
@@ -475,7 +481,7 @@ func checkC18(c *lib.Ctx) {
 		return
 	}
 	defer os.RemoveAll(top)
-	c18F10(c, top, modelOK)
+	c18F10(c, top)
 }
 
 // ---- F10: READ longer than a page with max-tx-packet above the page size (run in a child: the worker panics) ----
@@ -499,7 +505,7 @@ func c18F10Child(args []string) {
 	fmt.Println(string(b))
 }
 
-func c18F10(c *lib.Ctx, top string, modelOK bool) {
+func c18F10(c *lib.Ctx, top string) {
 	r := c.R
 	type obs struct {
 		Server, Allocator string
@@ -541,27 +547,11 @@ func c18F10(c *lib.Ctx, top string, modelOK bool) {
 		}
 		offOK := seen[0].Exit == "0" && strings.Contains(seen[0].Stdout, "DATA id=9 len=300000")
 		onOK := seen[1].Exit == "0" && strings.Contains(seen[1].Stdout, "DATA id=9 len=300000")
-		if modelOK {
-			// the model has the same step: taking a page sliced to more than its size panics iff pages are recycled
-			var lines, impl []string
-			for k, ok := range []bool{offOK, onOK} {
-				lines = append(lines, fmt.Sprintf("c18.run 1111%d:%d:300000 L A:05 L T:0:300000", k, c18PageSize))
-				impl = append(impl, map[bool]string{true: "panic=0", false: "panic=1"}[ok])
-			}
-			if out, err := c.Model(lines); err == nil {
-				for i, o := range out {
-					if !strings.HasSuffix(o, impl[i]) {
-						r.Fail(lib.Failure{Kind: "correspondence", Key: "c18/c18.run/read-over-page", What: "model and implementation differ on whether a READ longer than a page panics",
-							Input: lines[i], Expected: o, Actual: impl[i] + " (" + server + ")"})
-					}
-				}
-			}
-		}
 		switch {
 		case offOK && onOK:
 		case offOK && !onOK:
 			r.Fail(lib.Failure{Kind: "oracle", Key: "alloc/read-len-over-page",
-				What:     "with the allocator on and max-tx-packet above the page size (262144), a READ longer than a page does not get the reply it gets without the allocator: the worker slices a 262144-byte page to the requested length and panics (the server process dies)",
+				What:     "with the allocator on and max-tx-packet above the page size (262144), a READ longer than a page does not get the reply it gets without the allocator (former defect F10: the worker sliced a 262144-byte page to the requested length and panicked)",
 				Input:    map[string]any{"server": server, "max_tx_packet": 300000, "request": "READ len=300000 off=0 on a 600000-byte file", "how": "vh child c18-f10 " + server + " on <scratch>"},
 				Expected: seen[0], Actual: seen[1]})
 		default:
